@@ -237,7 +237,7 @@ func dependsOn(comp string) []string {
 func explore(ctx *core.Ctx, cases []*Case) *exploreState {
 	st := &exploreState{cases: map[string]*caseState{}}
 	repsID := 40
-	repsOther := ctx.Pick(4, 40)
+	repsOther := ctx.Pick(4, 20)
 	var wg sync.WaitGroup
 	ch := make(chan *Case)
 	var runs, behaviours int64
@@ -548,7 +548,7 @@ func children(ctx *core.Ctx, cases []*Case, st *exploreState) {
 		go func(i int) {
 			defer wg.Done()
 			cmd := exec.Command(exe, "quick")
-			cmd.Env = append(os.Environ(), "VERIF_C13_CHILD="+path, fmt.Sprintf("VERIF_C13_REPS=%d", ctx.Pick(2, 10)))
+			cmd.Env = append(os.Environ(), "VERIF_C13_CHILD="+path, fmt.Sprintf("VERIF_C13_REPS=%d", ctx.Pick(2, 6)))
 			cmd.Stderr = os.Stderr
 			out, err := cmd.Output()
 			if err != nil {
